@@ -18,6 +18,7 @@ func runC13(c *Ctx) {
 	c.Rule("C13-R1", "result canonicalised by a sort after the fan-in; MergeRanges sorts after map iteration", 3)
 	c.Rule("C13-R2", "all slice results consumed; cross-slice merge; slice error fails the query; slice cache key complete; ends expanded", 11)
 	c.Rule("C13-R3", "sort order keys on series identity and start", 2)
+	defer c13DecodeTargetReset(c)
 	rq := c.MustFunc("C13-R1", "internal/promapi.Prometheus.RangeQuery")
 	if rq == nil {
 		return
@@ -358,4 +359,83 @@ func definedByMethod(info *types.Info, body ast.Node, obj types.Object, method s
 		return true
 	})
 	return found
+}
+
+// c13DecodeTargetReset: streamSampleStream decodes every series of a slice
+// response into ONE variable declared outside the per-element callback. The
+// streaming decoder fills maps in place, so a map-typed field of that variable
+// (the label set) must be replaced by a fresh value inside the callback, or
+// labels of an earlier series leak into later ones and the same series has
+// different identities in different slices (the cross-slice merge then fails).
+func c13DecodeTargetReset(c *Ctx) {
+	fi := c.MustFunc("C13-R2", "internal/promapi.streamSampleStream")
+	if fi == nil {
+		return
+	}
+	info := fi.Pkg.TypesInfo
+	// the decode target: a local of a struct type whose address is taken in a call argument
+	var target types.Object
+	ast.Inspect(fi.Decl.Body, func(n ast.Node) bool {
+		u, ok := n.(*ast.UnaryExpr)
+		if !ok || u.Op != token.AND {
+			return true
+		}
+		id, ok := u.X.(*ast.Ident)
+		if !ok {
+			return true
+		}
+		if v, ok := info.Uses[id].(*types.Var); ok && !v.IsField() {
+			if _, isStruct := v.Type().Underlying().(*types.Struct); isStruct && typeQName(v.Type()) != "" && target == nil {
+				target = v
+			}
+		}
+		return true
+	})
+	if target == nil {
+		c.Undecided("C13-R2", "streamSampleStream:decode target", fi.Decl.Pos(), "no `&local` of a struct type handed to the decoder")
+		return
+	}
+	st := target.Type().Underlying().(*types.Struct)
+	n := 0
+	for i := 0; i < st.NumFields(); i++ {
+		f := st.Field(i)
+		if _, isMap := f.Type().Underlying().(*types.Map); !isMap {
+			continue
+		}
+		n++
+		reset := false
+		ast.Inspect(fi.Decl.Body, func(nd ast.Node) bool {
+			lit, ok := nd.(*ast.FuncLit)
+			if !ok {
+				return true
+			}
+			ast.Inspect(lit.Body, func(m ast.Node) bool {
+				as, ok := m.(*ast.AssignStmt)
+				if !ok || len(as.Lhs) != 1 || len(as.Rhs) != 1 {
+					return true
+				}
+				sel, ok := as.Lhs[0].(*ast.SelectorExpr)
+				if !ok || sel.Sel.Name != f.Name() || !isObj(info, sel.X, target) {
+					return true
+				}
+				switch r := ast.Unparen(as.Rhs[0]).(type) {
+				case *ast.CompositeLit:
+					reset = true
+				case *ast.CallExpr:
+					if id, ok := r.Fun.(*ast.Ident); ok && id.Name == "make" {
+						reset = true
+					}
+				case *ast.Ident:
+					if r.Name == "nil" {
+						reset = true
+					}
+				}
+				return true
+			})
+			return true
+		})
+		c.Check(reset, "C13-R2", "streamSampleStream:decode target field "+f.Name()+" (map) is replaced after every series", fi.Decl.Pos(), "fresh value per series",
+			"the map field "+f.Name()+" of the shared decode target is not replaced inside the per-series callback: the decoder adds keys in place, so labels of an earlier series stay on later ones; a series then has different label sets in different slices and is not merged across the slice boundary")
+	}
+	c.Check(n >= 1, "C13-R2", "streamSampleStream:map fields of the decode target enumerated", fi.Decl.Pos(), itoa(n), "no map-typed field found in the decode target")
 }
